@@ -183,6 +183,27 @@ def main():
             xdev.setdefault(c, []).append((s_['text'], pos))
     for c, xs in sorted(xdev.items()):
         print(f'EXTRA-DEVIATION: clause {c} fails {len(xs)} time(s), e.g. event {xs[0][1]} of {xs[0][0][:300]!r}')
+    # spec -> code for the extended machine: TLC enumerates every behaviour of the bounded extended instance (all C02 invariants and the
+    # document laws hold in every state); the behaviours that use an add-spine operator, a second section or '*x' are replayed
+    from . import c02
+    mcx = tlc.run_tlc('MC_SpinePaths', 'MC_SpinePaths_ext.cfg', workers=16, timeout=3000, label='MC_SpinePaths(extended machine, 5 lines)')
+    def is_ext(b):
+        return (any(c['k'] in ('add', 'exch') for e in b['fed'] if 'cells' in e for c in e['cells'])
+                or sum(1 for e in b['fed'] if e['ev'] == 'header') > 1 or any(c['k'] == 'hdr' for e in b['fed'] if e['ev'] == 'row' for c in e['cells']))
+    xb = [b for b in mcx.vp if is_ext(b)]
+    rndx = random.Random(11)
+    xb = xb if len(xb) <= 4000 else rndx.sample(xb, 4000)
+    c02._BEHS = xb
+    sb = docs.build_sessions(c02._beh_worker, range(len(xb)))
+    vb, tl4 = tlc.validate_traces('Trace_Session', [s_['log'] for s_ in sb])
+    bdev = {}
+    for s_, v in zip(sb, vb):
+        if v.reached != v.length:
+            bdev.setdefault('blocked', []).append(s_['text'])
+        for pos, c in v.fails:
+            bdev.setdefault(c, []).append(s_['text'])
+    for c, xs in sorted(bdev.items()):
+        print(f'EXTRA-DEVIATION: (TLC behaviour of the extended machine) clause {c} fails {len(xs)} time(s), e.g. {xs[0][:200]!r}')
     for t, c in gdev[:5]:
         print('EXTRA-DEVIATION:', c, 'of', repr(t[:200]))
     for r in dev[:10]:
@@ -193,9 +214,10 @@ def main():
         print(f'EXTRA-KNOWN: {k} x{n}: {KNOWN[k]}')
     out = {'records': len(recs), 'deviations': len(dev), 'known_deviations': known, 'documents_with_page_boxes': npage, 'page_index_deviations': len(pdev), 'graph_exports': len(sess), 'graph_deviations': len(gdev),
            'extended_machine_documents': len(sx), 'extended_machine_with_add_spine': sum(1 for s_ in sx if '*+' in s_['text']),
-           'extended_machine_with_exchange': sum(1 for s_ in sx if '*x' in s_['text']), 'extended_machine_sections>1': sum(1 for s_ in sx if s_['text'].count('\n**') + s_['text'].startswith('**') > 1),
+           'extended_machine_with_exchange': sum(1 for s_ in sx for e_ in s_['log'] if e_['ev'] == 'unsupported'), 'extended_machine_sections>1': sum(1 for s_ in sx if s_['text'].count('\n**') + s_['text'].startswith('**') > 1),
+           'extended_machine_mc_states': mcx.distinct, 'extended_machine_behaviours_replayed': len(xb), 'extended_machine_behaviour_deviations': {c: len(x) for c, x in bdev.items()},
            'extended_machine_blocked': nblocked, 'extended_machine_deviations': {c: len(x) for c, x in xdev.items()},
-           'states': sum(t.distinct for t in tl + tl2 + tl3), 'wall_s': round(time.time() - t0, 1)}
+           'states': sum(t.distinct for t in tl + tl2 + tl3 + tl4) + mcx.distinct, 'wall_s': round(time.time() - t0, 1)}
     if os.environ.get('VERIF_REPO', '/repo') == '/repo':          # a development run against a scratch repository writes nothing
         os.makedirs(os.path.join(VERIF, 'evidence'), exist_ok=True)
         with open(os.path.join(VERIF, 'evidence', 'extras.json'), 'w') as f:
